@@ -2,29 +2,55 @@
 #![allow(static_mut_refs)]
 
 pub mod oracle {
+    //! Ghost hash log (recording stub): every hash / KDF / KEM-derivation call appends its domain, its exact
+    //! input byte stream and its (unconstrained, symbolic) output.
     pub const DOM_G: u8 = 1;
     pub const DOM_KEM: u8 = 2;
     pub const DOM_SHA3_256: u8 = 3;
     pub const DOM_SHA3_384: u8 = 4;
     pub const DOM_SHA3_512: u8 = 5;
     pub const DOM_KMAC: u8 = 6;
-    pub const MAXQ: usize = 24;
-    pub const MAXIN: usize = 72;
+    pub const MAXQ: usize = 12;
+    pub const MAXIN: usize = 104;
     pub const OUT: usize = 64;
     pub static mut N: usize = 0;
     pub static mut DOMS: [u8; MAXQ] = [0; MAXQ];
     pub static mut LENS: [usize; MAXQ] = [0; MAXQ];
-    /// Recording stub: logs domain and length of the query, returns an unconstrained answer.
+    pub static mut INS: [[u8; MAXIN]; MAXQ] = [[0; MAXIN]; MAXQ];
+    pub static mut OUTS: [[u8; OUT]; MAXQ] = [[0; OUT]; MAXQ];
     pub fn query(dom: u8, input: &[u8]) -> [u8; OUT] {
         unsafe {
-            assert!(input.len() <= MAXIN, "oracle input too long");
-            assert!(N < MAXQ, "too many oracle queries");
+            assert!(input.len() <= MAXIN, "BOUND: oracle input too long");
+            assert!(N < MAXQ, "BOUND: too many oracle queries");
             let out: [u8; OUT] = kani::any();
             DOMS[N] = dom;
             LENS[N] = input.len();
+            let mut buf = [0u8; MAXIN];
+            buf[..input.len()].copy_from_slice(input);
+            INS[N] = buf;
+            OUTS[N] = out;
             N += 1;
             out
         }
+    }
+    /// log accessors
+    pub fn n() -> usize { unsafe { N } }
+    pub fn dom(q: usize) -> u8 { unsafe { DOMS[q] } }
+    pub fn len(q: usize) -> usize { unsafe { LENS[q] } }
+    pub fn input(q: usize) -> [u8; MAXIN] { unsafe { INS[q] } }
+    pub fn out(q: usize) -> [u8; OUT] { unsafe { OUTS[q] } }
+    /// bytes [a, a+32) of the input of query q
+    pub fn in32(q: usize, a: usize) -> [u8; 32] {
+        let i = input(q);
+        let mut r = [0u8; 32];
+        r.copy_from_slice(&i[a..a + 32]);
+        r
+    }
+    pub fn out32(q: usize, a: usize) -> [u8; 32] {
+        let o = out(q);
+        let mut r = [0u8; 32];
+        r.copy_from_slice(&o[a..a + 32]);
+        r
     }
 }
 
@@ -47,7 +73,7 @@ pub mod hstub {
     fn absorb(input: &[u8]) {
         unsafe {
             assert!(ALIVE);
-            assert!(LEN + input.len() <= oracle::MAXIN, "hash input too long");
+            assert!(LEN + input.len() <= oracle::MAXIN, "BOUND: hash input too long");
             BUF[LEN..LEN + input.len()].copy_from_slice(input);
             LEN += input.len();
         }
@@ -114,19 +140,42 @@ pub mod hstub {
     }
 }
 
+/// Ghost RNG draw log: every `fill_bytes` draw (first 32 bytes kept) and the number of `next_u32/u64` draws.
+pub mod rng_log {
+    pub const MAXD: usize = 6;
+    pub static mut NFILL: usize = 0;
+    pub static mut FILL_LEN: [usize; MAXD] = [0; MAXD];
+    pub static mut FILL: [[u8; 32]; MAXD] = [[0; 32]; MAXD];
+    pub static mut NWORD: usize = 0;
+    pub fn nfill() -> usize { unsafe { NFILL } }
+    pub fn nword() -> usize { unsafe { NWORD } }
+    pub fn fill(i: usize) -> [u8; 32] { unsafe { FILL[i] } }
+    pub fn fill_len(i: usize) -> usize { unsafe { FILL_LEN[i] } }
+}
+
 pub struct SymRng;
 impl cosmian_crypto_core::reexport::rand_core::RngCore for SymRng {
     fn next_u32(&mut self) -> u32 {
+        unsafe { rng_log::NWORD += 1; }
         kani::any()
     }
     fn next_u64(&mut self) -> u64 {
+        unsafe { rng_log::NWORD += 1; }
         kani::any()
     }
     fn fill_bytes(&mut self, dest: &mut [u8]) {
         let n = dest.len();
-        assert!(n <= 64);
+        assert!(n <= 64, "BOUND: RNG draw too long");
         let src: [u8; 64] = kani::any();
         dest.copy_from_slice(&src[..n]);
+        unsafe {
+            assert!(rng_log::NFILL < rng_log::MAXD, "BOUND: too many RNG draws");
+            let mut first = [0u8; 32];
+            first.copy_from_slice(&src[..32]);
+            rng_log::FILL[rng_log::NFILL] = first;
+            rng_log::FILL_LEN[rng_log::NFILL] = n;
+            rng_log::NFILL += 1;
+        }
     }
     fn try_fill_bytes(
         &mut self,
